@@ -581,6 +581,12 @@ func (b *BFT) Pacemaker() {
 	sort.Slice(sortedVotes, func(i, j int) bool {
 		return sortedVotes[i].Qc.Header.Round >= sortedVotes[j].Qc.Header.Round
 	})
+	// the smallest voting power that the Byzantine validators (strictly less than 1/3 of the total) cannot reach alone: ceil(T/3)
+	// NOTE: half of MinimumMaj23 rounds down to floor(T/3) when T = 3k+1, which a Byzantine minority of exactly k reaches alone
+	moreThanOneThird := b.ValidatorSet.TotalPower / 3
+	if b.ValidatorSet.TotalPower%3 != 0 {
+		moreThanOneThird++
+	}
 	// loop from the highest Round to the lowest Round, summing the voting power until reaching round 0 or getting +2/3rds majority
 	totalVotedPower, pacemakerRound := uint64(0), uint64(0)
 	for _, vote := range sortedVotes {
@@ -590,8 +596,8 @@ func (b *BFT) Pacemaker() {
 			continue
 		}
 		totalVotedPower += validator.VotingPower
-		// if totalVotePower >= +33%, it's safe to advance to that round
-		if totalVotedPower >= lib.Uint64ReducePercentage(b.ValidatorSet.MinimumMaj23, 50) {
+		// if totalVotePower >= +33%, it's safe to advance to that round (at least one correct replica has been there)
+		if totalVotedPower >= moreThanOneThird {
 			pacemakerRound = vote.Qc.Header.Round // set the highest round where +1/3rds have been
 			break
 		}
